@@ -70,7 +70,7 @@ func thorough() bool { return cfg.Tier == "thorough" }
 
 // quickMult scales the per-cell case counts of the quick tier (they were calibrated when
 // the checks were written; the machine has room for more).
-const quickMult = 3
+const quickMult = 8
 
 // thoroughMult scales the thorough tier likewise (a full thorough run of all twenty
 // properties takes about an hour on 16 cores).
